@@ -24,6 +24,8 @@ pub enum Ev {
     T(u32),
     /// one call of tick_ms(n)
     Tn(u32),
+    /// idle loop as in start_processing_loop with no input: up to n times { if can_block_update_idle_waiting(1) stop; tick_ms(1) }
+    L(u32),
     /// virtual key operation through the TCP path: (index into sorted vkey names, op 0..4 = press/release/tap/toggle)
     Vk(u8, u8),
 }
@@ -37,6 +39,7 @@ impl Ev {
             Ev::Tap(c) => format!("tap:{}", code_name(c)),
             Ev::T(n) => format!("t:{}", n),
             Ev::Tn(n) => format!("tn:{}", n),
+            Ev::L(n) => format!("loop:{}", n),
             Ev::Vk(i, op) => format!("vk{}:{}", i, ["press", "release", "tap", "toggle"][op as usize & 3]),
         }
     }
@@ -49,6 +52,7 @@ impl Ev {
             "tap" => Ev::Tap(name_code(v)?),
             "t" => Ev::T(v.parse().ok()?),
             "tn" => Ev::Tn(v.parse().ok()?),
+            "loop" => Ev::L(v.parse().ok()?),
             _ if k.starts_with("vk") => {
                 let i: u8 = k[2..].parse().ok()?;
                 let op = ["press", "release", "tap", "toggle"].iter().position(|x| *x == v)? as u8;
@@ -86,6 +90,9 @@ pub fn kc(name: &str) -> u16 {
 /// One parsed output event.
 #[derive(Debug, Clone, PartialEq, Eq, Hash)]
 pub enum Out {
+    /// OS auto-repeat forwarded by kanata (rendered as a press by the simulated output; identified
+    /// by having been emitted synchronously during a repeat input event)
+    Rep(String),
     Down(String),
     Up(String),
     MDown(String),
@@ -98,9 +105,19 @@ pub enum Out {
 pub type Trace = Vec<(u64, Out)>;
 
 pub fn parse_outputs(events: &[String]) -> Trace {
+    parse_outputs_rep(events, &[])
+}
+
+pub fn parse_outputs_rep(events: &[String], rep_idx: &[usize]) -> Trace {
     let mut t: u64 = 0;
     let mut tr = Vec::with_capacity(events.len());
-    for e in events {
+    for (i, e) in events.iter().enumerate() {
+        if rep_idx.contains(&i) {
+            if let Some(r) = e.strip_prefix("out:↓") {
+                tr.push((t, Out::Rep(r.to_string())));
+                continue;
+            }
+        }
         if let Some(n) = e.strip_prefix("t:").and_then(|r| r.strip_suffix("ms")) {
             t += n.parse::<u64>().unwrap_or(0);
             continue;
@@ -113,6 +130,12 @@ pub fn parse_outputs(events: &[String]) -> Trace {
             Out::MDown(r.to_string())
         } else if let Some(r) = e.strip_prefix("out🖰:↑") {
             Out::MUp(r.to_string())
+        } else if let Some(r) = e.strip_prefix("out-code:") {
+            match r.split_once(';') {
+                Some((c, "Press")) | Some((c, "Repeat")) => Out::Down(format!("code:{c}")),
+                Some((c, "Release")) => Out::Up(format!("code:{c}")),
+                _ => Out::Other(e.clone()),
+            }
         } else if let Some(r) = e.strip_prefix("outU:") {
             Out::Uni(r.to_string())
         } else {
@@ -130,6 +153,7 @@ pub fn trace_to_string(tr: &Trace) -> String {
             s.push(' ');
         }
         match o {
+            Out::Rep(k) => s += &format!("{}:⟳{}", t, k),
             Out::Down(k) => s += &format!("{}:↓{}", t, k),
             Out::Up(k) => s += &format!("{}:↑{}", t, k),
             Out::MDown(k) => s += &format!("{}:m↓{}", t, k),
@@ -211,6 +235,8 @@ pub struct Sim {
     pub k: Box<Kanata>,
     pub vkeys: Vec<(String, usize)>,
     pub ticks: u64,
+    /// indices into the raw output list of events emitted during a repeat input step
+    pub rep_idx: Vec<usize>,
 }
 
 pub type Files = FxHashMap<String, String>;
@@ -230,13 +256,27 @@ impl Sim {
                 let mut vkeys: Vec<(String, usize)> =
                     k.virtual_keys.iter().map(|(n, i)| (n.clone(), *i)).collect();
                 vkeys.sort();
-                Ok(Sim { k, vkeys, ticks: 0 })
+                Ok(Sim { k, vkeys, ticks: 0, rep_idx: vec![] })
             }
         }
     }
 
     /// Applies one step to the real code. Err = panic text.
     pub fn step(&mut self, ev: Ev) -> Result<(), String> {
+        let n_before = self.k.kbd_out.outputs.events.len();
+        let r = self.step_inner(ev);
+        if let Ev::Rep(_) = ev {
+            let n_after = self.k.kbd_out.outputs.events.len();
+            for i in n_before..n_after {
+                if self.k.kbd_out.outputs.events[i].starts_with("out:↓") {
+                    self.rep_idx.push(i);
+                }
+            }
+        }
+        r
+    }
+
+    fn step_inner(&mut self, ev: Ev) -> Result<(), String> {
         let k = &mut self.k;
         let vk = &self.vkeys;
         let r = guarded(|| -> Result<(), String> {
@@ -270,6 +310,14 @@ impl Sim {
                     }
                 }
                 Ev::Tn(n) => k.tick_ms(n as u128, &None).map_err(|e| format!("{e:?}"))?,
+                Ev::L(n) => {
+                    for _ in 0..n {
+                        if k.can_block_update_idle_waiting(1) {
+                            break;
+                        }
+                        k.tick_ms(1, &None).map_err(|e| format!("{e:?}"))?
+                    }
+                }
                 Ev::Vk(i, op) => {
                     if let Some((_, idx)) = vk.get(i as usize) {
                         let action = match op & 3 {
@@ -314,7 +362,7 @@ impl Sim {
         self.k.kbd_out.outputs.events.len()
     }
     pub fn trace(&self) -> Trace {
-        parse_outputs(self.raw_outputs())
+        parse_outputs_rep(self.raw_outputs(), &self.rep_idx)
     }
 
     /// Complete dynamic state rendering (hooks H1/H2).
